@@ -136,6 +136,14 @@ Theorem C07_rfc_vectors :
   /\ hss_verify K_src 32 sha rfc_testcase2_message rfc_testcase2_signature rfc_testcase2_public_key = Ok tt.
 Proof. split; [exact kat1_spec|split; [exact kat2_spec|split; [exact kat1_model|exact kat2_model]]]. Qed.
 
+
+(* the hash preimage layouts of the current source (translator: ordered .chain / .update arguments
+   per function) are the layouts the model writes down (Model/HashInputs.v) *)
+From HbsLms Require Model.HashInputs.
+Theorem C07_hash_input_layouts : src_hash_inputs = HashInputs.model_hash_inputs.
+Proof. apply HashInputs.layouts_eqb_eq. vm_compute. reflexivity. Qed.
+
+Print Assumptions C07_hash_input_layouts.
 Print Assumptions C07_lmots_public_key_is_alg1.
 Print Assumptions C07_lmots_signature_is_alg3.
 Print Assumptions C07_signature_is_rfc8554.
